@@ -18,6 +18,8 @@ pub mod immix;
 pub mod sched;
 /// Hooks for heap layout (Map32, chunk-state mmapper, SFT / VM map lookups).
 pub mod layout;
+/// Hooks that drive the large object space of a real plan by hand.
+pub mod los;
 /// Hooks for side / header metadata.
 pub mod meta;
 /// Hooks for size classes, compressor forwarding, mem-balancer, options.
